@@ -336,6 +336,7 @@ func (w *world) newReader(r *reader) error {
 						r.searchErr = fmt.Sprint("panic: ", p)
 					}
 				}()
+				dirtyPool()
 				qpr, err := dp.Search(params)
 				if err != nil {
 					r.searchErr = err.Error()
